@@ -220,6 +220,18 @@ func (s *Synchronizer) OnRemoteTimeout(timeout hotstuff.TimeoutMsg) {
 		s.logger.Infof("View timeout signature is not signed by the sender %d only", timeout.ID)
 		return
 	}
+	if s.config.HasAggregateQC() {
+		// The message signature becomes a part of the aggregate QC: it must be the sender's
+		// valid signature of the timeout message, or the aggregate QC will not verify.
+		if !signedOnlyBy(timeout.MsgSignature, timeout.ID) {
+			s.logger.Infof("Timeout message signature is not signed by the sender %d only", timeout.ID)
+			return
+		}
+		if err := s.auth.Verify(timeout.MsgSignature, timeout.ToBytes()); err != nil {
+			s.logger.Infof("Timeout message signature could not be verified: %v", err)
+			return
+		}
+	}
 	s.logger.Debug("OnRemoteTimeout (advancing view): ", timeout)
 	s.advanceView(timeout.SyncInfo)
 
